@@ -68,11 +68,27 @@ class Exec(X.PyExec):
             return [("val", Arr("float64", [n], data=uid("rng-random")), st)]
         if name.startswith("counter."):
             return counter_method(self, name, selfv, args, kwargs, st)
+        if name == "set.add":
+            if not (isinstance(args[0], Sym) and args[0].dtype == "bytes"):
+                raise Unsupported("set.add of a non-bytes value")
+            f = st.objs[selfv.oid]["fields"]
+            f["$elems"] = f["$elems"] + (args[0].t,)
+            return [("val", Const(None), st)]
         if name == "sdict.items":
             return [("val", list(st.objs[selfv.oid]["fields"]["$items"]), st)]
         if name == "const.put":  # queue.put on an opaque constant
             return [("val", Const(None), st)]
         return super().builtin_method(name, selfv, args, kwargs, st)
+
+    def builtin(self, name, args, kwargs, st):
+        if name == "set" and not args:
+            return [("val", st.new_obj("$set", {"$elems": ()}), st)]
+        return super().builtin(name, args, kwargs, st)
+
+    def getattr(self, v, attr, st, fn):
+        if isinstance(v, Ref) and st.objs[v.oid]["cls"] == "$set" and attr == "add":
+            return [("val", BoundMethod(Builtin("set.add"), v), st)]
+        return super().getattr(v, attr, st, fn)
 
     def iter_items(self, v, st):
         if isinstance(v, Arr) and hasattr(v, "elems"):
@@ -117,6 +133,12 @@ class Exec(X.PyExec):
                     return v.v.__name__
             return None
 
+        if isinstance(op, (ast.In, ast.NotIn)) and isinstance(b, Ref) and st.objs[b.oid]["cls"] == "$set":
+            if not (isinstance(a, Sym) and a.dtype == "bytes"):
+                raise Unsupported("membership of a non-bytes value")
+            el = st.objs[b.oid]["fields"]["$elems"]
+            t = z3.Or(*[a.t == e for e in el]) if el else z3.BoolVal(False)
+            return Sym(z3.simplify(t if isinstance(op, ast.In) else z3.Not(t)), "bool")
         da, db = dtn(a), dtn(b)
         if da is not None and db is not None and isinstance(op, (ast.Eq, ast.NotEq)):
             return Const((da == db) == isinstance(op, ast.Eq))
